@@ -957,6 +957,7 @@ func runC12(c *Ctx) error {
 		fmt.Printf("replay: %d failures\n", len(c.Rep.Failures))
 		return nil
 	}
+	kfReproC12(c.Rep)
 	// the recorded finding C12-4: a dynamic limit given without ShouldContinueOnError
 	{
 		before := len(c.Rep.Failures)
